@@ -74,6 +74,9 @@ TRANSPORT_THEOREMS = {
     'TransportResolve': ['gen_resolve_json', 'gen_resolve_mut_json', 'gen_resolve_toml', 'gen_resolve_mut_toml', 'gen_four_walks_agree',
                          'gen_resolve_eq_walk', 'gen_resolve_returns_node', 'gen_every_node_addressable', 'gen_resolve_no_panic'],
 }
+# theorems about the model that back a harness-only law and are built + audited with the same step
+EXTRA = {'Jp.Props.Depth': (['C05', 'C06', 'C10'], ['Jp.Depth.expandSpec_zeros', 'Jp.Depth.assignSpec_zeros', 'Jp.Depth.walk_zeros',
+                                                    'Jp.Depth.assign_zeros', 'Jp.Depth.resolve_zeros'])}
 ALLOWED_AXIOMS = {'propext', 'Classical.choice', 'Quot.sound'}
 
 def sh(cmd, cwd, timeout=1800):
@@ -133,11 +136,17 @@ def run(prop, repo, lean_dir, log=lambda s: None):
             tbuilt.append(tm); audit_names += ['Jp.Tie.' + n for n in TRANSPORT_THEOREMS[tm]]
         else:
             log(f"{prop}: transported theorems Jp.Tie.{tm} do not build: {first_error(out, 'Jp.Tie.' + tm)}")
+    extra_built = []
+    for mod, (props_, names) in EXTRA.items():
+        if prop in props_:
+            rc, out = sh(['lake', 'build', mod], lean_dir)
+            if rc == 0: extra_built.append(mod); audit_names += names
+            else: log(f"{prop}: {mod} does not build: {first_error(out, mod)}")
     axioms_ok = True; bad_ax = {}
     if audit_names:
         adir = os.path.join(lean_dir, '.audit'); os.makedirs(adir, exist_ok=True)
         f = os.path.join(adir, f"Tie_{prop}.lean")
-        imports = [f"import Jp.Tie.{i}" for i in proved] + [f"import Jp.Tie.{t}" for t in tbuilt]
+        imports = [f"import Jp.Tie.{i}" for i in proved] + [f"import Jp.Tie.{t}" for t in tbuilt] + [f"import {m}" for m in extra_built]
         open(f, 'w').write('\n'.join(imports) + '\n' + '\n'.join(f"#print axioms {n}" for n in audit_names) + '\n')
         rc, out = sh(['lake', 'env', 'lean', f], lean_dir)
         cur = None
@@ -149,7 +158,7 @@ def run(prop, repo, lean_dir, log=lambda s: None):
                 if not ax <= ALLOWED_AXIOMS: bad_ax[m.group(1)] = sorted(ax - ALLOWED_AXIOMS)
         if rc != 0 or bad_ax:
             axioms_ok = False
-    out = dict(applicable=True, functions=res, transported_modules=tbuilt,
+    out = dict(applicable=True, functions=res, transported_modules=tbuilt, extra_modules=extra_built,
                theorems_checked=len(audit_names), axioms_ok=axioms_ok, bad_axioms=bad_ax,
                all_proved=(len(proved) == len(ids)) and axioms_ok and len(tbuilt) == len(tmods),
                escalate=(len(proved) != len(ids)))
